@@ -488,11 +488,9 @@ func concretize(v vfile, names [][]byte, metas [][]byte, variant int) []byte {
 			continue
 		}
 		le.PutUint64(data[r.Off:], valTok[r.Val])
-		flag := 0xff000000
-		if variant%5 == 4 {
-			flag = 0
-		}
-		le.PutUint32(data[r.Off+8:], uint32(r.NLen&0x00ffffff)|uint32(flag))
+		// the top byte of the length word is not part of the length: the library writes 0xff, readers mask it
+		flag := []uint32{0xff000000, 0xff000000, 0xff000000, 0, 0xff000000, 0x80000000, 0x01000000}[variant%7]
+		le.PutUint32(data[r.Off+8:], uint32(r.NLen&0x00ffffff)|flag)
 		put32(data, r.Off+12, r.Next)
 		copy(data[r.Off+16:], names[r.N-1])
 	}
@@ -668,6 +666,8 @@ func randPlain(rng *rand.Rand) string {
 		n = 4096 - rng.Intn(3)
 	case 2:
 		n = 100 + rng.Intn(1000)
+	case 3: // 16+n a multiple of 32: the record has no padding, the next one (or the limit) follows immediately
+		n = []int{16, 48, 80, 4080}[rng.Intn(4)]
 	}
 	b := make([]byte, n)
 	for i := range b {
@@ -686,7 +686,8 @@ func randPlain(rng *rand.Rand) string {
 	return string(b)
 }
 
-var pathPool = []string{"golang.org/x/tools/gopls/internal/server", "main", "runtime", "example.com/a.b/c", "net/http", "x", "\xff\xfe/p"}
+var pathPool = []string{"golang.org/x/tools/gopls/internal/server", "main", "runtime", "example.com/a.b/c", "net/http", "x", "\xff\xfe/p",
+	"net/http.(*Server)", "main.g[...]", "example.com/a.b/c.d.func1", "caf\xc3\xa9/\xe2\x82\xac"}
 
 // randStack makes a stack-counter name the way the documentation describes
 // (import path replaced by a ditto when it repeats), and sometimes shapes the
@@ -744,6 +745,16 @@ func randMetaText(rng *rand.Rand) string {
 		s := "Program: " + strings.Repeat("x", 400) + "\n"
 		return s + strings.Repeat("y", 512-len(s)-7) + ": end\n\n"
 	}
+	switch rng.Intn(12) {
+	case 0:
+		return "A: 1\n\nB: 2\n\n" // a blank line inside
+	case 1:
+		return ": v\nK: \n" // empty key, empty value
+	case 2:
+		return "K: V" // no newline
+	case 3:
+		return "K\xff: \xfe\r\n\tT: x\r\n"
+	}
 	prog := []string{"golang.org/x/tools/gopls", "cmd/go", "a: b", "\xffprog", ""}[rng.Intn(5)]
 	return rt.V1Meta("2024-01-03T00:00:00Z", "2024-01-07T00:00:00Z", prog, []string{"v0.16.1", "devel", ""}[rng.Intn(3)], "go1.23.5", "linux", "amd64")
 }
@@ -799,6 +810,19 @@ func validFile(rng *rand.Rand, large bool) []byte {
 	if err != nil {
 		panic(err)
 	}
+	switch rng.Intn(10) {
+	case 0: // space reserved above the last record (a writer died before linking its record): still well-formed
+		h := le.Uint32(data[28:])
+		lim := le.Uint32(data[h:])
+		if lim == 0 {
+			lim = (h + 4 + 2048 + 31) / 32 * 32
+		}
+		if int(lim)+64 <= len(data) {
+			le.PutUint32(data[h:], lim+32*uint32(1+rng.Intn(2)))
+		}
+	case 1: // a further, still unused page
+		data = append(data, make([]byte, page)...)
+	}
 	return data
 }
 
@@ -811,7 +835,8 @@ func interesting(data []byte) (fields []int, values []uint32) {
 		uint32(len(data))+32, 0xffffffff, 0x80000000, page, page-32)
 	for _, r := range f.Records {
 		fields = append(fields, int(f.HdrLen)+4+4*r.Bucket, int(r.Off)+8, int(r.Off)+12, int(r.Off), int(r.Off)+4)
-		values = append(values, r.Off, r.Off+16, r.Off+32, uint32(len(r.Name)), uint32(len(r.Name))|0xff000000, 0xff000000, 0xff000000|4097)
+		values = append(values, r.Off, r.Off+16, r.Off+32, uint32(len(r.Name)), uint32(len(r.Name))|0xff000000, 0xff000000, 0xff000000|4097,
+			uint32(len(data))-r.Off-16, uint32(len(data))-r.Off-15, uint32(len(r.Name)+1)|0xff000000, uint32(len(r.Name)-1)|0xff000000)
 	}
 	return
 }
